@@ -23,6 +23,7 @@ DESIGN.md this was a genuine restriction (`RoundTrips`), with counterexamples `0
 import Lemmas.RelayRel
 import Lemmas.RelaySample
 import Lemmas.Num
+import Lemmas.Message
 open GoStd Sip Proxy Lemmas
 
 namespace Props.C01
@@ -158,6 +159,61 @@ theorem C01_wire (cfg : Cfg) (st : St) (ev : RawEv) :
   refine ⟨m'.headers, ?_, ?_⟩
   · rw [hd, C01_one_content_length, hs, hb]
   · rw [C01_printed_others, C01_printed_others, hothers]
+
+/-! ### wire to wire -/
+
+/-- a received header line as the proxy prints it again: `name: value` CRLF -/
+def wireLine (h : Bytes × Bytes) : Bytes := h.1 ++ [58, 32] ++ h.2 ++ crlf
+
+theorem filter_map_toHeader (p : Bytes → Bool) (hs : List (Bytes × Bytes)) :
+    ((hs.map toHeader).filter (fun h => p h.name)).map headerLine = (hs.filter (fun h => p h.1)).map wireLine := by
+  induction hs with
+  | nil => rfl
+  | cons h t ih =>
+    simp only [List.map_cons, List.filter_cons]
+    have : (toHeader h).name = h.1 := rfl
+    rw [this]
+    cases p h.1
+    · simpa using ih
+    · simp only [↓reduceIte, List.map_cons, ih]
+      rfl
+
+/-- WIRE TO WIRE. The bytes received are a well-formed message `start / hs / body` (either line ending,
+any blanks after the colon, values trimmed: `WF` and `parse_render`), `ev.msg` is what the reader
+extracted from them, and the start line is one the codec prints back as it reads it (`hstart`: C14's
+subject; it fails only on the inputs tracked as known findings). Then EVERY output of the step is,
+byte for byte: the received start line, CRLF, header lines, exactly one Content-Length equal to the
+number of body bytes, a blank line, the received body; and the lines outside the Via / Route /
+Record-Route / Content-Length classes are exactly the received (name, value) pairs, in order, with
+multiplicity. -/
+theorem C01_wire_to_wire (cfg : Cfg) (st : St) (ev : RawEv) (eol start : Bytes) (sl : StartLine)
+    (hs : List (Bytes × Bytes)) (body rest : Bytes) (heol : EolOK eol) (hwf : WF cfg.cm start sl hs body)
+    (hrecv : parseMessage cfg.cm (render eol start hs body ++ rest) = .ok ev.msg rest)
+    (hstart : startLineBytes sl = start) :
+    ∀ o ∈ (step cfg st ev).2, ∃ hs' : List Header,
+      outData o =
+        start ++ crlf
+        ++ ((hs'.filter (fun h => !isCL cfg.cm h.name)).map headerLine).flatten
+        ++ str "Content-Length: " ++ natToBytes body.length ++ crlf ++ crlf ++ body ∧
+      (hs'.filter (fun h => !owned cfg.cm h.name && !isCL cfg.cm h.name)).map headerLine =
+        (hs.filter (fun h => !owned cfg.cm h.1 && !isCL cfg.cm h.1)).map wireLine := by
+  have hm : ev.msg = ⟨sl, hs.map toHeader, body⟩ := by
+    rw [parse_render cfg.cm eol start sl hs body heol hwf rest] at hrecv
+    injection hrecv with h1 _
+    exact h1.symm
+  intro o ho
+  obtain ⟨hs', h1, h2⟩ := C01_wire cfg st ev o ho
+  refine ⟨hs', ?_, ?_⟩
+  · rw [h1, hm, encodeFirstLine_eq, hstart]
+  · rw [h2, hm]
+    exact filter_map_toHeader (fun n => !owned cfg.cm n && !isCL cfg.cm n) hs
+
+/-- the hypotheses of `C01_wire_to_wire` are satisfiable: `SIP/2.0 200 OK` / `Content-Length: 2` / `hi`
+received with bare-LF line ends and three bytes of the next message behind it, any configuration -/
+example (cfg : Cfg) (st : St) (ev : RawEv)
+    (hev : ev.msg = ⟨.status [83, 73, 80, 47, 50, 46, 48] 200 [79, 75], [⟨contentLengthName, .raw [50]⟩], [104, 105]⟩) :=
+  C01_wire_to_wire cfg st ev [10] _ _ _ _ [73, 78, 86] (Or.inr rfl) (wf_example_status cfg.cm)
+    (by rw [hev]; exact parse_render cfg.cm _ _ _ _ _ (Or.inr rfl) (wf_example_status cfg.cm) _) (by decide)
 
 /-! ### non-vacuity on the sample configuration -/
 
